@@ -832,11 +832,11 @@ Fixpoint wt (t : ev) : bool :=
   | Fixed e _ => takes e KSeats && wt e
   | Cond el e _ => wt el && wt e
   | ByCons e _ => takes e KSeats && prev_implies_max e && wt e
-  | ByConsD e ae => takes e KSeats && prev_implies_max e && wt e && wt ae
+  | ByConsD e ae => takes e KSeats && prev_implies_max e && wt e && takes ae KSeats && wt ae
   | PreApp e _ => takes_spm e && wt e
-  | PreAppD e ae => takes_spm e && wt e && wt ae
+  | PreAppD e ae => takes_spm e && wt e && takes ae KSeats && wt ae
   | RemApp e => takes_spm e && wt e
-  | ByParty ov al => wt ov && takes al KSeats && prev_implies_max al && wt al
+  | ByParty ov al => takes ov KSeats && wt ov && takes al KSeats && prev_implies_max al && wt al
   | ByPartyS ov => wt ov && takes ov KSeats && prev_implies_max ov
   | Multi rs _ => forallb (fun s => takes_spm s && wt s) rs
   | TieBr m b => wt m && takes b KSeats && wt b
